@@ -1803,6 +1803,7 @@ size_t _GD_DoField(DIRFILE *restrict D, gd_entry_t *restrict E, int repr,
     num_samp = GD_TRANSACTION_MAX(ntype);
   if (first_samp > (int64_t)(GD_INT64_MAX - num_samp)) {
     _GD_SetError(D, GD_E_RANGE, GD_E_OUT_OF_RANGE, NULL, 0, NULL);
+    D->recurse_level--;
     dreturn("%i", 0);
     return 0;
   }
@@ -1811,6 +1812,7 @@ size_t _GD_DoField(DIRFILE *restrict D, gd_entry_t *restrict E, int repr,
   if (~ntype & GD_COMPLEX) {
     if (repr == GD_REPR_IMAG) {
       memset(data_out, 0, GD_SIZE(return_type) * num_samp);
+      D->recurse_level--;
       dreturn("%" PRIuSIZE, num_samp);
       return num_samp;
     } else if (repr == GD_REPR_REAL)
